@@ -80,6 +80,17 @@ def gen_cases(rng, ctx):
     cases.append(Case(l, l, kind="known:ping-protocol-not-enabled", nontrivial=True,
                       meta={"flags": [0, 1, 1, 0], "main": ["m"], "alts": [], "rp": [], "ping": ["p"], "speed": [],
                             "queries": [([list(b"http/1.1")], "p"), ([], "p")]}))
+    # corpus: an alternative SNI that is a subdomain of a main host (of its own, and of another one)
+    for flags0, main0, alts0, qs0 in (([1, 1, 1, 0], ["m"], [(0, "a.m")], ["a.m", "x.m", "m"]),
+                                      ([1, 1, 0, 0], ["a", "m"], [(0, "b.m")], ["b.m", "c.m", "a", "m"])):
+        toks = [flags0, names(main0), alts_tok(alts0), [], [], []]
+        queries = []
+        for q in qs0:
+            queries.append(([list(b"h2")], q))
+            toks += [names([b"h2"]), list(q.encode())]
+        l = line("c05_select", toks)
+        cases.append(Case(l, l, kind="select", nontrivial=True,
+                          meta={"flags": flags0, "main": main0, "alts": alts0, "rp": [], "ping": [], "speed": [], "queries": queries}))
     for _ in range(400 if thorough else 80):
         flags, main, alts, rp, ping, speed = gen_config(rng)
         queries = []
@@ -169,15 +180,16 @@ def oracle(meta):
             if n == sni:
                 des = (ch, i, None)
                 break
-        if des is None and "." in sni:
-            a, b = sni.split(".", 1)
-            if b in main:
-                des = (0, main.index(b), a)
         if des is None:
+            # a configured alternative SNI comes before the <credentials>.<main host> pattern (the order of the statement)
             for h, a in alts:
                 if a == sni:
                     des = (0, h, None)
                     break
+        if des is None and "." in sni:
+            a, b = sni.split(".", 1)
+            if b in main:
+                des = (0, main.index(b), a)
         if des is None:
             out.append(None)
             continue
